@@ -1,11 +1,26 @@
 pub mod c01;
 pub mod c02;
 pub mod c03;
+pub mod c08;
+pub mod c11;
+pub mod c12;
+pub mod c13;
+pub mod c14;
 pub mod common;
+pub mod sendview;
 pub mod session;
 
 use crate::engine::Prop;
 
 pub fn all() -> Vec<Box<dyn Prop>> {
-    vec![Box::new(c01::C01), Box::new(c02::C02), Box::new(c03::C03)]
+    vec![
+        Box::new(c01::C01),
+        Box::new(c02::C02),
+        Box::new(c03::C03),
+        Box::new(c08::C08),
+        Box::new(c11::C11),
+        Box::new(c12::C12),
+        Box::new(c13::C13),
+        Box::new(c14::C14),
+    ]
 }
